@@ -674,6 +674,13 @@ type GhostField struct {
 
 type SortDecl struct{ Name, SMT string }
 
+// FieldInv is a type invariant of one field: assumed whenever the field is loaded, proved whenever it is stored.
+type FieldInv struct {
+	Heap string // as written (T.f)
+	Pkg  string
+	C    Clause
+}
+
 type GuardDecl struct {
 	Type   string
 	Fields []string
@@ -691,6 +698,7 @@ type SpecSet struct {
 	Sorts   map[string]string
 	Guards  []*GuardDecl
 	RawSMT  []string
+	FieldInvs []*FieldInv
 	Order   []string // function keys in declaration order
 	Lemmas  []*AxiomDecl
 }
@@ -703,7 +711,7 @@ var clauseKeywords = map[string]bool{
 	"sort": true, "ghost": true, "pure": true, "pred": true, "axiom": true, "func": true, "trusted": true,
 	"interface": true, "functype": true, "requires": true, "ensures": true, "modifies": true, "loop": true,
 	"invariant": true, "decreases": true, "unfold": true, "inherits": true, "bv": true, "inline": true,
-	"smt": true, "guarded": true, "assumes": true, "assert": true, "raises": true, "maypanic": true, "lemma": true, "fresh": true, "end": true,
+	"smt": true, "guarded": true, "assumes": true, "assert": true, "fieldinv": true, "raises": true, "maypanic": true, "lemma": true, "fresh": true, "end": true,
 }
 
 // LoadSpecFile reads //@ lines from a file. pkgPath is the package the file belongs to ("" for trusted specs).
@@ -788,6 +796,16 @@ func (ss *SpecSet) LoadSpecFile(path, pkgPath string) error {
 			ss.Sorts[parts[0]] = strings.TrimSpace(parts[1])
 		case "smt":
 			ss.RawSMT = append(ss.RawSMT, rc.text)
+		case "fieldinv":
+			k := strings.Index(rc.text, ":")
+			if k < 0 {
+				return fail(rc.line, "fieldinv T.f: expr")
+			}
+			c, err := parseClause(rc.text[k+1:], rc.line)
+			if err != nil {
+				return err
+			}
+			ss.FieldInvs = append(ss.FieldInvs, &FieldInv{Heap: strings.TrimSpace(rc.text[:k]), Pkg: pkgPath, C: c})
 		case "ghost":
 			// ghost field T.f sort
 			f := strings.Fields(rc.text)
